@@ -96,6 +96,8 @@ def main() -> int:
     budget_tier = tier if proofs_ok else "thorough"  # failing-input search gets the thorough budget
     try:
         spec["explore"](run, drv, rng, budget_tier)
+    except common.StopExploration:
+        pass
     except Exception:
         traceback.print_exc()
         print("infrastructure failure in exploration", flush=True)
